@@ -184,6 +184,18 @@ def b_scenarios():
                     for rebuild in (False, True):
                         out.append({'layer': 'b', 'searcher': searcher, 'main': main, 'pyc': pyc, 'distract': distract, 'rebuild': rebuild,
                                     'name': 'AAA-MIB', 'skew': 0})
+    # byte-code left in __pycache__ by an earlier import is not a transformed copy of the module: with the .py gone or
+    # stale the answer is "not up to date" whatever that cache entry says
+    for searcher in ('py', 'pkg'):
+        for main in MAIN:
+            for pc in ('fresh', 'stale'):
+                out.append({'layer': 'b', 'searcher': searcher, 'main': main, 'pyc': 'none', 'distract': False, 'rebuild': False, 'name': 'AAA-MIB', 'skew': 0,
+                            'pycache': pc})
+    # a package laid out as a symlink farm: __init__.py is a link to a file kept elsewhere, the modules are in the package
+    for main in MAIN:
+        for rebuild in (False, True):
+            out.append({'layer': 'b', 'searcher': 'pkg', 'main': main, 'pyc': 'none', 'distract': False, 'rebuild': rebuild, 'name': 'AAA-MIB', 'skew': 0,
+                        'init_symlink': True})
     return out
 
 
@@ -207,8 +219,23 @@ def _populate_b(scn, d):
     with core.unhooked():
         os.makedirs(d, exist_ok=True)
         if scn['searcher'] == 'pkg':
-            with open(os.path.join(d, '__init__.py'), 'w') as f:
-                f.write('')
+            if scn.get('init_symlink'):
+                store = os.path.join(os.path.dirname(d), 'store-' + os.path.basename(d))
+                os.makedirs(store, exist_ok=True)
+                with open(os.path.join(store, '__init__.py'), 'w') as f:
+                    f.write('')
+                if not os.path.lexists(os.path.join(d, '__init__.py')):
+                    os.symlink(os.path.join(store, '__init__.py'), os.path.join(d, '__init__.py'))
+            else:
+                with open(os.path.join(d, '__init__.py'), 'w') as f:
+                    f.write('')
+        if scn.get('pycache'):
+            import sys as _sys
+            os.makedirs(os.path.join(d, '__pycache__'), exist_ok=True)
+            p = os.path.join(d, '__pycache__', '%s.%s.pyc' % (name, _sys.implementation.cache_tag))
+            with open(p, 'wb') as f:
+                f.write(_pyc_bytes(1 if scn['pycache'] == 'fresh' else -1, 'pyc+1'))
+            os.utime(p, (T0 + 1000, T0 + 1000))
         m = scn['main']
         if m.startswith('file'):
             dt = int(m[4:])
